@@ -21,7 +21,7 @@ import (
 const MaxTasks = 1024
 
 // MaxCallers is the largest number of caller tasks a run may start with.
-const MaxCallers = 16
+const MaxCallers = 64
 
 const hotWindow = 6
 
